@@ -66,6 +66,15 @@ EXTRA_SHAPES = [
     ('markers-207-then-201', [12001, 4024, 224000, 101002, 31031, 8023, 207001, 224255, 207000, 201129, 224255, 201000]),
     ('markers-208-then-none', [1015, 1019, 223000, 101002, 31031, 208004, 223255, 208000, 223255]),
     ('markers-201-202-then-202', [12001, 12003, 10004, 223000, 101003, 31031, 201130, 202129, 223255, 201000, 223255, 202000, 223255]),
+    # markers INSIDE a replication body whose operator context changes from marker to marker (the body is compiled once and
+    # executed 0..n times), and a marker after a loop that may run zero times
+    ('markers-in-loop-201-between', [12001, 4024, 10004, 13011, 12003, 12004, 224000, 101006, 31031, 8023,
+                                     104000, 31001, 224255, 201130, 224255, 201000]),
+    ('markers-in-loop-202-207', [12001, 4024, 10004, 13011, 12003, 12004, 223000, 101006, 31031,
+                                 106000, 31001, 202129, 223255, 202000, 207001, 223255, 207000]),
+    ('marker-after-zero-count-loop', [12001, 4024, 10004, 13011, 223000, 101004, 31031, 103000, 31001, 201130, 223255, 201000,
+                                      201130, 223255, 201000]),
+    ('marker-in-fixed-loop-208', [1015, 1019, 1015, 1019, 232000, 101004, 31031, 104002, 208004, 232255, 208000, 232255]),
     ('two-bitmaps-in-sequence', [12001, 4024, 5001, 223000, 31031, 31031, 31031, 101000, 31001, 223255,
                                  232000, 31031, 31031, 31031, 101000, 31001, 232255]),
     ('explicit-after-replicated-bitmap', [12001, 4024, 5001, 223000, 101003, 31031, 101000, 31001, 223255,
